@@ -50,6 +50,8 @@ def replay(w):
             return {'reproduced': True, 'signature': 'statistics-step-raises', 'observed': {'raised': repr(exc)}}
         sig, obs = _check(new, labels, data, K, n, biased)
         return {'reproduced': sig is not None, 'signature': sig, 'observed': obs}
+    if nt.get('kind') == 'round_flow':
+        return _round_flow(w)
     # task plumbing: run the real optimiser step with a recording stand-in for the ADMM entry point
     import fast_ticc.admm as admm
     from fast_ticc import graphical_lasso as gl
@@ -119,6 +121,69 @@ def replay(w):
                 sig = 'result-not-stored-in-own-cluster'
                 obs = {'cluster': k}
     return {'reproduced': sig is not None, 'signature': sig, 'observed': obs}
+
+
+def _round_flow(w):
+    import fast_ticc
+    import fast_ticc.admm as admm
+    from .scripted import Scripted
+    nt, inp = w['notes'], w.get('inputs') or {}
+    K, P, lim, biased = int(nt['K']), int(nt['P']), int(nt['limit']), bool(nt['biased'])
+    pats = [[0, 0, 1, 1], [0, 1, 0, 1], [1, 1, 0, 0]]
+    data = np.array([[flt(inp.get('x_%d_0' % i, i * 1.5 - (i % 2)))] for i in range(P)])
+    if len(set(data.ravel().tolist())) < P:
+        data = data + np.arange(P).reshape(-1, 1) * 0.37
+    seen = []
+    real = admm.admm_optimize_theta
+
+    def spy(cov, *a, **k):
+        seen.append(np.array(cov, copy=True))
+        return real(cov, *a, **k)
+    admm.admm_optimize_theta = spy
+    sc = Scripted({}, K, 1, initial=pats[0], relabel=[pats[(r + 1) % 3] for r in range(lim)],
+                  scripted=('bic', 'ch', 'initial', 'repopulate'))
+    try:
+        from fast_ticc import main_loop
+
+        class P1:
+            def apply_async(self, f, a=(), kw=None):
+                class T:
+                    def get(s):
+                        return f(*a, **(kw or {}))
+                return T()
+
+            def close(self):
+                pass
+
+            def join(self):
+                pass
+        old_pool = main_loop._init_task_pool
+        main_loop._init_task_pool = lambda n: P1()
+        try:
+            with sc:
+                fast_ticc.ticc_labels(data, window_size=1, num_clusters=K, iteration_limit=lim, min_cluster_size=1,
+                                      sparsity_weight=0.1, label_switching_cost=1.0, biased_covariance=biased)
+        finally:
+            main_loop._init_task_pool = old_pool
+    except Exception as exc:
+        return {'reproduced': True, 'signature': 'run-raises', 'observed': {'raised': repr(exc)}}
+    finally:
+        admm.admm_optimize_theta = real
+    for r in range(min(lim, len(seen) // K)):
+        labs = pats[r % 3] if r > 0 else pats[0]
+        for k in range(K):
+            rows = data[[i for i, l in enumerate(labs) if l == k], :]
+            d = len(rows) if biased else len(rows) - 1
+            want = float(((rows - rows.mean(axis=0)) ** 2).sum() / d)
+            got = float(np.asarray(seen[r * K + k]).reshape(-1)[0])
+            if not close_(got, want):
+                return {'reproduced': True, 'signature': 'round-fitted-to-wrong-windows-or-estimator',
+                        'observed': {'round': r, 'cluster': k, 'got': got, 'want': want, 'biased': biased}}
+    return {'reproduced': False, 'signature': None, 'observed': {'tasks_seen': len(seen)}}
+
+
+def close_(a, b):
+    return abs(a - b) <= 1e-9 * (1 + abs(a) + abs(b))
 
 
 def validate(witnesses):
